@@ -62,3 +62,10 @@ def gen_ops(rng, tier, ctx=None):
             yield "mpz_gcdext 0 %s %s" % (hx(r0 * f), hx(r1 * f))
             yield "mpz_gcd 0 %s %s" % (hx(r0), hx(r1))
             yield "mpz_invert 0 %s %s" % (hx(r1), hx(r0))
+
+    # mpz_jacobi with a numerator of exactly twice as many limbs as the denominator and scratch beyond the 64 KB alloca limit
+    # (the quotient area of the initial reduction is then a heap block checked by the exact-size allocator)
+    for an, bn in ([(8200, 4100)] if tier == "quick" else [(8200, 4100), (8201, 4100), (10000, 5000), (12000, 6000)]):
+        b = rng.getrandbits(64 * bn) | 1 | 1 << (64 * bn - 1)
+        a = rng.getrandbits(64 * an) | 1 << (64 * an - 1)
+        yield "mpz_jacobi %s %s" % (hx(a), hx(b))
